@@ -115,6 +115,12 @@ func GenC14(seed uint64, tier string) *Plan {
 			if r.Chance(0.3) {
 				st.Faults[0].Arg = rt.Pick(r, []int{100, 101, 199, 200, 201, 204, 206, 207, 226, 299, 300, 301, 304, 307, 399, 400, 401, 403, 404, 405, 409, 412, 423, 424, 499, 500, 501, 503, 507, 599})
 			}
+			if r.Chance(0.12) {
+				// an error page that never ends; only for error statuses: how much of a
+				// 2xx body a caller wants is the caller's business
+				st.Faults[0].Kind = rt.Pick(r, []string{"status-endless-text", "status-endless-html", "status-endless-opaque", "status-endless-notype"})
+				st.Faults[0].Arg = rt.Pick(r, []int{300, 400, 403, 404, 409, 423, 500, 502, 503, 504})
+			}
 		case 2: // body cut
 			st.Faults = []Fault{{Seam: "resp", Kind: rt.Pick(r, []string{"cut-eof", "cut-error"}), At: r.Intn(1200)}}
 			if r.Chance(0.3) {
